@@ -448,6 +448,9 @@ def witnesses():
                                                    [["var", "y"]], [X, Y]),
         "symbolic-call-argument-not-evaluated": _w(["cmp", "==", ["call", ["var", "x"], "m", [["attr", ["var", "y"], "a"]]], ["lit", 1]],
                                                    [["var", "x"], ["var", "y"]], [X, Y]),
+        "symbolic-call-arguments-share-a-variable": dict(_w(['and', ['cmp', '<=', ['attr', ['var', 'y'], 'b'], ['attr', ['var', 'x'], 'a']], ['cmp', '==', ['call', ['var', 'y'], 'plus', [['attr', ['var', 'z'], 'a'], ['attr', ['var', 'z'], 'b']]], ['lit', 2]]],
+            [['var', 'y'], ['var', 'z'], ['var', 'x']], [{'name': 'x', 'type': 'P', 'dom': [2, 1], 'kind': 'gen'}, {'name': 'y', 'type': 'P', 'dom': [0, 1], 'kind': 'list'}, {'name': 'z', 'type': 'Q', 'dom': [0, 2, 1], 'kind': 'list'}],
+            world=[{'cls': 'Q', 'a': 1, 'b': 0, 'items': [1, 2, 2], 'kids': [], 'ref': None, 'd': {'k': 0}, 'name': 'o0', 'f': '2.5', 'fs': [0, 1, 2]}, {'cls': 'Q', 'a': 0, 'b': 1, 'items': [2], 'kids': [], 'ref': 0, 'd': {'k': 0}, 'name': 'o1', 'f': '-1.0', 'fs': [1, 2]}, {'cls': 'P', 'a': 0, 'b': 1, 'items': [1], 'kids': [2, 1], 'ref': 1, 'd': {'k': 0}, 'name': 'o2', 'f': '1.0', 'fs': [0, 1, 2]}], mode='set_of'), share_terms=False),
         "symbolic-index-key-not-evaluated": _w(["cmp", ">=", ["idx", ["attr", ["var", "x"], "d"], ["call", ["var", "y"], "key", []]], ["lit", 1]],
                                                [["var", "x"], ["var", "y"]], [X, Y]),
         "exists-dedup": _w(["exists", "x", ["cmp", "<=", ["attr", ["var", "x"], "a"], ["attr", ["var", "y"], "a"]]],
